@@ -108,17 +108,11 @@ pub fn print_js<'a>(
     let final_source_map = chain_source_maps(source_map, &original_source_map.source, config)
         .unwrap_or_else(|| String::from(source_map));
 
-    let final_code = if config.print_comments {
-        match &original_source_map.source_map_comment {
-            Some(comment) => {
-                debug!("Replacing original sourceMappingUrl comment: {comment}");
-                code.replace(comment.as_str(), "").into()
-            }
-            _ => code.into(),
-        }
-    } else {
-        code.into()
-    };
+    if let Some(comment) = &original_source_map.source_map_comment {
+        // it is removed from the comments to print in extract_source_map
+        debug!("Original sourceMappingUrl comment replaced: {comment}");
+    }
+    let final_code: Cow<'a, str> = code.into();
 
     if final_source_map.is_empty() {
         debug!("No sourcemap available");
@@ -320,6 +314,12 @@ fn extract_source_map<R: Read>(
     }
 
     if let Some(comment) = last_comment {
+        // the sourceMappingURL comment appended in print_js supersedes this one: do not print it
+        comments
+            .trailing
+            .iter_mut()
+            .for_each(|mut trailing| trailing.retain(|c| c.span != comment.span));
+
         let trim_comment = comment.text.trim();
         source_map_comment = Some(String::from(comment.text.as_str()));
         let url = trim_comment.get(SOURCE_MAP_URL.len()..).unwrap();
